@@ -100,7 +100,6 @@ theorem reg_write_visible (k : RegFile) (r : Nat) (hr : r < numRegs) (v : Nat) :
 
 theorem disasm_masks_patches (start stop : Nat) (orig text : List Byte) (bps : List Bp)
     (hlen : orig.length = stop - start) (htl : text.length = orig.length)
-    (hend : ∀ bp ∈ bps, bp.addr ≠ stop)
     (hsaved : ∀ bp ∈ bps, start ≤ bp.addr → bp.addr < stop → orig[bp.addr - start]? = some bp.saved)
     (hagree : ∀ i, i < orig.length → (∀ bp ∈ bps, bp.addr ≠ start + i) → text[i]? = orig[i]?) :
     maskPatches start stop text bps = .ok orig := by
@@ -114,23 +113,20 @@ theorem disasm_masks_patches (start stop : Nat) (orig text : List Byte) (bps : L
       · rw [List.getElem?_eq_none (by omega), List.getElem?_eq_none (by omega)]
     simp [maskPatches, this]
   | cons bp rest ih =>
-    have hbpend : bp.addr ≠ stop := hend bp (by simp)
-    have hend' : ∀ b ∈ rest, b.addr ≠ stop := fun b hb => hend b (by simp [hb])
     have hsaved' : ∀ b ∈ rest, start ≤ b.addr → b.addr < stop →
         orig[b.addr - start]? = some b.saved := fun b hb => hsaved b (by simp [hb])
     unfold maskPatches maskOne
-    by_cases hc : start ≤ bp.addr ∧ bp.addr ≤ stop
+    by_cases hc : start ≤ bp.addr ∧ bp.addr < stop
     · have hidx : bp.addr - start < text.length := by omega
       simp only [hc, and_self, if_true, hidx]
       apply ih
       · simp [htl]
-      · exact hend'
       · exact hsaved'
       · intro i hi hrest
         by_cases hii : i = bp.addr - start
         · subst hii
           rw [List.getElem?_set_self hidx]
-          exact (hsaved bp (by simp) hc.1 (by omega)).symm
+          exact (hsaved bp (by simp) hc.1 hc.2).symm
         · rw [List.getElem?_set_ne (by omega)]
           apply hagree i hi
           intro b hb
@@ -138,7 +134,7 @@ theorem disasm_masks_patches (start stop : Nat) (orig text : List Byte) (bps : L
           · subst h; omega
           · exact hrest b h
     · simp only [hc, if_false]
-      apply ih text htl hend' hsaved'
+      apply ih text htl hsaved'
       intro i hi hrest
       apply hagree i hi
       intro b hb
@@ -146,25 +142,23 @@ theorem disasm_masks_patches (start stop : Nat) (orig text : List Byte) (bps : L
       · subst h; omega
       · exact hrest b h
 
-theorem disasm_total_partial (start stop : Nat) (text : List Byte) (bps : List Bp)
-    (htl : text.length = stop - start) (hend : ∀ bp ∈ bps, bp.addr ≠ stop) :
+theorem disasm_total (start stop : Nat) (text : List Byte) (bps : List Bp)
+    (htl : text.length = stop - start) :
     ∃ t, maskPatches start stop text bps = .ok t ∧ t.length = text.length := by
   induction bps generalizing text with
   | nil => exact ⟨text, rfl, rfl⟩
   | cons bp rest ih =>
-    have hbpend : bp.addr ≠ stop := hend bp (by simp)
-    have hend' : ∀ b ∈ rest, b.addr ≠ stop := fun b hb => hend b (by simp [hb])
     unfold maskPatches maskOne
-    by_cases hc : start ≤ bp.addr ∧ bp.addr ≤ stop
+    by_cases hc : start ≤ bp.addr ∧ bp.addr < stop
     · have hidx : bp.addr - start < text.length := by omega
       simp only [hc, and_self, if_true, hidx]
-      obtain ⟨t, ht, hl⟩ := ih (text.set (bp.addr - start) bp.saved) (by simp [htl]) hend'
+      obtain ⟨t, ht, hl⟩ := ih (text.set (bp.addr - start) bp.saved) (by simp [htl])
       exact ⟨t, ht, by simpa using hl⟩
     · simp only [hc, if_false]
-      exact ih text htl hend'
+      exact ih text htl
 
-/-- concrete witness: a breakpoint exactly at the end address faults -/
-theorem disasm_end_bp_faults : maskPatches 0 1 [0x90] [⟨1, 0⟩] = .error (.oob 1 1) := by
+/-- the witness of the repaired defect: a breakpoint exactly at the end address is ignored -/
+theorem disasm_end_bp_ignored : maskPatches 0 1 [0x90] [⟨1, 0⟩] = .ok [0x90] := by
   simp [maskPatches, maskOne]
 
 
@@ -184,8 +178,8 @@ theorem leWord_wordBytes (n w : Nat) : leWord (wordBytes n w) = w % 256 ^ n := b
     simp only [wordBytes, leWord, ih, hb]
     rw [Nat.pow_succ 256 n, Nat.mul_comm (256 ^ n) 256, Nat.mod_mul]
 
-/-- concrete witness: "300" into a u8 is accepted and stores 44, although 300 is out of range -/
-theorem setvar_u8_300 : parseInt IntKind.u8.signed (trim "300".toList) = some 300 ∧ ¬ IntKind.u8.inRange 300 ∧ parseSetInt .u8 "300".toList = some [44] := by
+/-- the witness of the repaired defect: "300" does not fit a u8 and is refused (44 was stored before) -/
+theorem setvar_u8_300 : parseInt IntKind.u8.signed (trim "300".toList) = some 300 ∧ ¬ IntKind.u8.inRange 300 ∧ parseSetInt .u8 "300".toList = none := by
   refine ⟨by decide, ?_, by decide⟩
   simp [IntKind.inRange, IntKind.signed, IntKind.bytes]
 
@@ -193,8 +187,27 @@ theorem setvar_int_roundtrip (k : IntKind) (s : List Char) (i : Int)
     (hp : parseInt k.signed (trim s) = some i) (hr : k.inRange i) :
     ∃ bs, parseSetInt k s = some bs ∧ bs.length = k.bytes ∧ decodeInt k bs = i := by
   refine ⟨wordBytes k.bytes (i % (2 ^ (8 * k.bytes) : Nat)).toNat, ?_, length_wordBytes _ _, ?_⟩
-  · simp only [parseSetInt, hp]
+  · simp only [parseSetInt, hp, if_pos hr]
   · simp only [decodeInt, leWord_wordBytes]
     cases k <;> simp [IntKind.inRange, IntKind.bytes, IntKind.signed] at hr ⊢ <;> omega
+
+theorem setvar_range (k : IntKind) (s : List Char) (i : Int)
+    (hp : parseInt k.signed (trim s) = some i) (hr : ¬ k.inRange i) : parseSetInt k s = none := by
+  simp only [parseSetInt, hp, if_neg hr]
+
+/-- whatever is accepted decodes to the parsed value, which lies in the range of the type -/
+theorem setvar_accepted (k : IntKind) (s : List Char) (bs : List Byte) (h : parseSetInt k s = some bs) :
+    ∃ i, parseInt k.signed (trim s) = some i ∧ k.inRange i ∧ bs.length = k.bytes ∧ decodeInt k bs = i := by
+  cases hp : parseInt k.signed (trim s) with
+  | none => simp [parseSetInt, hp] at h
+  | some i =>
+    by_cases hr : k.inRange i
+    · obtain ⟨bs', hbs', hl, hd⟩ := setvar_int_roundtrip k s i hp hr
+      rw [h] at hbs'
+      injection hbs' with hbs'
+      subst hbs'
+      exact ⟨i, rfl, hr, hl, hd⟩
+    · rw [setvar_range k s i hp hr] at h
+      cases h
 
 end BsVerif.MemIO
